@@ -75,7 +75,7 @@ FROM_PRIM = {"from_f64", "from_f32", "from_u8", "from_u16", "from_u32", "from_u6
              "from_i16", "from_i32", "from_i64", "from_isize", "from_u128", "from_i128"}
 TRANSPARENT_METHODS = {"unwrap", "expect", "ok_or", "ok_or_else", "map_err", "clone", "to_owned", "into", "real",
                        "borrow", "as_ref", "copied", "cloned", "clone_owned", "into_owned", "to_real", "unwrap_unchecked"}
-TRANSPARENT_CALLS = {"from_real", "from_subset", "convert", "from", "to_subset_unchecked", "new_unchecked"}
+TRANSPARENT_CALLS = {"from_real", "from_subset", "convert", "from", "to_subset_unchecked", "new_unchecked", "from_column_slice", "from_row_slice"}
 MATH_METHODS = {
     "abs": sp.Abs, "modulus": sp.Abs, "sqrt": sp.sqrt, "exp": sp.exp, "ln": sp.log, "sin": sp.sin, "cos": sp.cos,
     "tan": sp.tan, "tanh": sp.tanh, "sinh": sp.sinh, "cosh": sp.cosh, "recip": lambda x: 1 / x,
@@ -413,6 +413,10 @@ class Interp:
             return self.user_call(pl, args, n)
         d = callee(n)
         if d is None:
+            fp = peel(f)
+            if fp.get("k") in ("Local", "Field") and (fp.get("ty") or "").lstrip("&mut ").startswith(("fn(", "for<", "unsafe fn(", "impl Fn", "dyn Fn")):
+                pl = self.norm_place(place(f))
+                return self.user_call(pl, [self.ev(a) for a in n["args"]], n)
             raise Unsupported(n, "unresolved callee")
         last = d.split("::")[-1]
         if last == "box_assume_init_into_vec_unsafe":
